@@ -189,6 +189,12 @@ type vWorld struct {
 	trace  []string
 	inTx   bool
 	onFin  func(real *bal.ConstructionBlockAccessList, model *refstate.TxDiff) // C15 hook
+	onStep func()                                                              // C15 hook, runs after every action
+
+	balBase  int             // block access index of the first transaction scope (1, or 0 = pre-execution system scope)
+	balIndex uint32          // block access index of the current scope
+	prepared bool            // current scope started with Prepare
+	wrote    map[string]bool // fields/slots whose value an action changed in this scope ("A1/bal", "A1/k2", ...)
 
 	// coverage facts
 	txs              int
@@ -204,7 +210,7 @@ type vWorld struct {
 }
 
 func vNewWorld(rt *rapid.T, rs vRuleSet, sdb *StateDB, m *refstate.State) *vWorld {
-	return &vWorld{rt: rt, rs: rs, sdb: sdb, m: m, strict: rs.m.EIP158, destroyed: map[common.Address]bool{}}
+	return &vWorld{rt: rt, rs: rs, sdb: sdb, m: m, strict: rs.m.EIP158, destroyed: map[common.Address]bool{}, balBase: 1, wrote: map[string]bool{}}
 }
 
 func (w *vWorld) logf(format string, a ...any) {
@@ -323,6 +329,9 @@ func (w *vWorld) checkAll() {
 
 // after is called after each action on address a.
 func (w *vWorld) after(a *common.Address) {
+	if w.onStep != nil {
+		defer w.onStep()
+	}
 	switch w.mode {
 	case 0:
 		w.checkAll()
@@ -423,8 +432,11 @@ func (w *vWorld) beginTx(prepare bool) {
 	} else {
 		w.logf("TX(no prepare)")
 	}
-	w.sdb.SetTxContext(w.thash, w.txN-1, uint32(w.txN))
-	w.m.SetTxContext(rw(w.thash), w.txN-1, uint32(w.txN))
+	w.balIndex = uint32(w.txN - 1 + w.balBase)
+	w.sdb.SetTxContext(w.thash, w.txN-1, w.balIndex)
+	w.m.SetTxContext(rw(w.thash), w.txN-1, w.balIndex)
+	w.prepared = prepare
+	w.wrote = map[string]bool{}
 	w.inTx = true
 }
 
@@ -529,6 +541,9 @@ func vActAddBalance(w *vWorld) {
 	g := w.sdb.AddBalance(a, amt, tracing.BalanceChangeUnspecified)
 	e := w.m.AddBalance(ra(a), amt.ToBig())
 	w.logf("AddBalance %s %v", vShortAddr(a), amt)
+	if !amt.IsZero() {
+		w.wrote[vShortAddr(a)+"/bal"] = true
+	}
 	if g.ToBig().Cmp(e) != 0 {
 		w.fail("AddBalance returned previous balance %v, model %v", &g, e)
 	}
@@ -553,6 +568,9 @@ func vActSubBalance(w *vWorld) {
 	g := w.sdb.SubBalance(a, amt, tracing.BalanceChangeUnspecified)
 	e := w.m.SubBalance(ra(a), amt.ToBig())
 	w.logf("SubBalance %s %v", vShortAddr(a), amt)
+	if !amt.IsZero() {
+		w.wrote[vShortAddr(a)+"/bal"] = true
+	}
 	if g.ToBig().Cmp(e) != 0 {
 		w.fail("SubBalance returned previous balance %v, model %v", &g, e)
 	}
@@ -562,6 +580,9 @@ func vActSubBalance(w *vWorld) {
 func vActSetBalance(w *vWorld) {
 	a := w.drawAddr("addr")
 	amt := rapid.SampledFrom(append(append([]*uint256.Int{}, vAmounts...), vMaxU256)).Draw(w.rt, "amt")
+	if w.m.GetBalanceQuiet(ra(a)).Cmp(amt.ToBig()) != 0 {
+		w.wrote[vShortAddr(a)+"/bal"] = true
+	}
 	w.sdb.SetBalance(a, amt, tracing.BalanceChangeUnspecified)
 	w.m.SetBalance(ra(a), amt.ToBig())
 	w.logf("SetBalance %s %v", vShortAddr(a), amt)
@@ -580,6 +601,9 @@ func vActSetNonce(w *vWorld) {
 		}
 	} else {
 		n = rapid.SampledFrom([]uint64{0, 1, 2, cur + 1, 1<<64 - 1}).Draw(w.rt, "nonce")
+	}
+	if n != cur {
+		w.wrote[vShortAddr(a)+"/nonce"] = true
 	}
 	w.sdb.SetNonce(a, n, tracing.NonceChangeUnspecified)
 	w.m.SetNonce(ra(a), n)
@@ -609,6 +633,9 @@ func vActSetCode(w *vWorld) {
 	if !bytes.Equal(g, e) {
 		w.fail("SetCode returned previous code %x, model %x", g, e)
 	}
+	if !bytes.Equal(e, code) {
+		w.wrote[vShortAddr(a)+"/code"] = true
+	}
 	w.after(&a)
 }
 
@@ -629,6 +656,9 @@ func vActSetState(w *vWorld) {
 	w.logf("SetState %s %s %s", vShortAddr(a), vShortSlot(k), vShortVal(v))
 	if g != common.Hash(e) {
 		w.fail("SetState returned previous value %x, model %x", g, e)
+	}
+	if g != v {
+		w.wrote[vShortAddr(a)+"/"+vShortSlot(k)] = true
 	}
 	w.after(&a)
 }
